@@ -3,7 +3,11 @@
 Decided: (a) caller-supplied differentiable parameters (leaf, non-leaf, callable of the geometry) are accepted;
 (b)(d) reverse-mode gradients of Etot/Hf (every backward mode) and of orbital energies, gap, charges
 (implicit / unrolled mode) reach the caller's tensor; reachability half of (c): a geometry-dependent
-parameter changes the force.  Not decided: gradients equal finite differences, Hessian symmetry.
+parameter changes the force; (e) every path of a parameter into the Fock step is credited exactly once
+(EachPathOnce; the shipped "saved inputs keep their history" implicit backward is refuted as a spec mutant) -
+bound to the code by comparing, for every row, the directional derivative of each required output with a central
+finite difference, also for batches whose rows converge at different iterations under every solver, and the
+unrolled-mode Hessian columns with finite differences of the forces.
 
 TLC checks ParamFlow (the parameter's link to the caller's tensor through call -> merge -> copy ->
 integrals -> SCF stage) for every method x parameter name x source x backward mode: Accepted,
@@ -19,6 +23,7 @@ from drivers import param_driver
 from harness import common, tlc
 
 PROP = "C07"
+FD_TOL = 5.0e-4    # relative (floor 1e-3) deviation of the directional derivative from the central difference; largest observed 4.1e-5
 
 
 def main(tier):
@@ -26,21 +31,40 @@ def main(tier):
     rng = __import__("random").Random(common.seed() + 7)
     scratch = common.scratch_dir("c07")
     try:
-        r = tlc.run("ParamFlow", dict(spec="Spec", constants=dict(CopyMode="shallow"), invariants=["Accepted", "ReachesCaller"], properties=["Finishes"]), scratch=scratch)
+        r = tlc.run("ParamFlow", dict(spec="Spec", constants=dict(CopyMode="shallow", HistoryMode="cut"), invariants=["Accepted", "ReachesCaller", "EachPathOnce"], properties=["Finishes"]), scratch=scratch)
         if r.error:
             rep.machinery("TLC ParamFlow: " + r.error[:400])
         elif r.violated:
             rep.violation("model_property_violated", {"violated": r.violated}, model=True)
-        rd = tlc.run("ParamFlow", dict(spec="Spec", constants=dict(CopyMode="deep"), invariants=["Accepted", "ReachesCaller"]), scratch=scratch)
+        rd = tlc.run("ParamFlow", dict(spec="Spec", constants=dict(CopyMode="deep", HistoryMode="cut"), invariants=["Accepted", "ReachesCaller"]), scratch=scratch)
         if not rd.violated:
             rep.machinery("vacuity: CopyMode=deep not refuted")
+        rk = tlc.run("ParamFlow", dict(spec="Spec", constants=dict(CopyMode="shallow", HistoryMode="kept"), invariants=["EachPathOnce"]), scratch=scratch)
+        if rk.violated != "EachPathOnce":
+            rep.machinery("vacuity: HistoryMode=kept not refuted")
         out = os.path.join(scratch, "pf.ndjson")
-        g = tlc.run("ParamFlowGen", dict(spec="Spec", constants=dict(CopyMode="shallow"), invariants=["Collect"], postcondition="Export"), workers=1, env={"OUT_FILE": out}, scratch=scratch)
+        g = tlc.run("ParamFlowGen", dict(spec="Spec", constants=dict(CopyMode="shallow", HistoryMode="cut"), invariants=["Collect"], postcondition="Export"), workers=1, env={"OUT_FILE": out}, scratch=scratch)
         rows = tlc.read_ndjson(out)
         if tier == "quick":
             must = [x for x in rows if x["req"]["p"] in ("U_ss", "alpha") and x["req"]["method"] == "AM1"]
             rows = must + rng.sample([x for x in rows if x not in must], 60)
-        res = common.run_forked(rows, param_driver.run_row, timeout=1200)
+        for x in rows:
+            x["fd"] = True
+        # batches whose rows converge at different iterations, every solver, implicit and unrolled mode (+ Hessian in unrolled mode)
+        extra = []
+        for mols in (["ch4", "h2o"], ["h2o", "formamide"], ["formamide"]):
+            for conv in ([1], [2], [0, 0.3]):
+                for mode in (1, 2):
+                    for pn in (("U_ss", "beta_p", "g_sp", "g_pp") if tier == "thorough" else ("U_ss", "g_pp")):
+                        extra.append(dict(req=dict(method="AM1", p=pn, src="leaf", mode=mode), required=["Etot", "Hf", "e_mo", "gap", "q"], mols=mols, conv=conv, fd=True, displace=0.12,
+                                          hessian=(pn == "U_ss" and mols != ["h2o", "formamide"])))
+        if tier == "quick":
+            extra = [e for e in extra if e["mols"] != ["formamide"] or e["conv"] != [1]]
+        rows = rows + extra
+        res = common.run_forked(rows, param_driver.run_row, timeout=1800)
+        worst_fd = 0.0
+        worst_h = {"asym": 0.0, "fd_dev": 0.0}
+        n_fd = 0
         n_ok = 0
         samples = []
         for row, rr in zip(rows, res):
@@ -59,6 +83,26 @@ def main(tier):
                 rep.violation("gradient_does_not_reach_caller", {"request": q, "outputs": bad, "projection": o["proj"]}, output=bad[0], **fields)
             elif nonfinite:
                 rep.violation("nonfinite_gradient", {"request": q, "outputs": nonfinite}, output=nonfinite[0], **fields)
+            fdbad = []
+            for name, (ad, fd) in (o.get("fd") or {}).items():
+                if name not in row["required"]:
+                    continue
+                n_fd += 1
+                rel = abs(ad - fd) / (abs(fd) + 1.0e-3)
+                worst_fd = max(worst_fd, rel)
+                if rel > FD_TOL:
+                    fdbad.append({"output": name, "autograd": ad, "finite_difference": fd})
+            if fdbad:
+                rep.violation("gradient_differs_from_finite_difference", {"request": q, "mols": row.get("mols", ["formamide"]), "solver": row.get("conv", [1]), "mismatch": fdbad},
+                              output=fdbad[0]["output"], batch=len(row.get("mols", [1])), solver=str(row.get("conv", [1])), **fields)
+            hs = o.get("hessian")
+            if hs:
+                worst_h = {k: max(worst_h[k], hs[k] / (hs["scale"] + 1e-12)) for k in worst_h}
+                if hs["asym"] > 1e-6 * hs["scale"] or hs["fd_dev"] > 2e-4 * hs["scale"]:
+                    rep.violation("hessian_differs_from_finite_difference_of_forces", {"request": q, "mols": row.get("mols"), "solver": row.get("conv"), "hessian": hs},
+                                  batch=len(row.get("mols", [1])), solver=str(row.get("conv", [1])), **fields)
+            if bad or nonfinite or fdbad:
+                pass
             else:
                 n_ok += 1
                 if len(samples) < 3:
@@ -75,10 +119,11 @@ def main(tier):
                 rep.violation("force_ignores_geometry_dependence_of_parameter", {"case": c, "max_force_difference": rr["result"]}, p=c["p"], method=c["method"])
         cov = {
             "states": r.distinct + g.distinct, "transitions": r.generated + g.generated, "traces_validated_against_impl": len(rows), "rows_conforming": n_ok,
-            "samples": samples or [{"note": "none"}], "deep_copy_refuted_by": rd.violated, "force_change_with_geometry_dependent_parameter": gd,
+            "samples": samples or [{"note": "none"}], "deep_copy_refuted_by": rd.violated, "kept_history_refuted_by": rk.violated, "finite_difference_comparisons": n_fd,
+            "calibration_worst_fd_deviation_over_tolerance": worst_fd / FD_TOL, "hessian_worst_relative": worst_h, "force_change_with_geometry_dependent_parameter": gd,
             "evaluations": len(rows), "distinct_nontrivial": len([x for x in rows if x["req"]["src"] != "leaf" or x["req"]["mode"] > 0]),
             "rule": "rows (method x parameter x source x backward mode) exported by TLC; non-trivial = non-leaf/callable source or scf_backward >= 1", "exhaustive": tier == "thorough",
         }
-        return rep.finish(cov, assumptions=["test molecule: formamide-like C/N/O/H so that every Gaussian/core parameter is structurally effective", "not decided: gradient values (finite differences), Hessian symmetry"])
+        return rep.finish(cov, assumptions=["test molecule: formamide-like C/N/O/H so that every Gaussian/core parameter is structurally effective", "gradient values: directional derivative along one fixed direction per row against a central difference of converged (eps 1e-11) single points; Hessian: four columns"])
     finally:
         common.rm(scratch)
